@@ -83,6 +83,35 @@ func (lp *libPipeline) effective(rootPom string) (project maven.Project, stage s
 	return project, "", nil
 }
 
+// effectiveCached runs the same pipeline for the project stored under pk, with
+// every POM (the project's own included) taken from the cache.
+func (lp *libPipeline) effectiveCached(pk maven.ProjectKey, cache *mpr.Cache) (project maven.Project, stage string, err error) {
+	defer func() {
+		if p := recover(); p != nil {
+			stage, err = "panic", fmt.Errorf("panic: %v", p)
+		}
+	}()
+	ctx := mpr.WithCache(mpr.WithRepo(context.Background(), lp.repo), cache)
+	if project, err = mpr.Fetch(ctx, pk); err != nil {
+		return project, "open", err
+	}
+	if err := project.MergeProfiles(maven.JDKProfileActivation, maven.OSProfileActivation); err != nil {
+		return project, "profiles", err
+	}
+	if err := mpr.MergeParents(ctx, project.Parent.ProjectKey, 1, &project); err != nil {
+		return project, "parents", err
+	}
+	project.ProcessDependencies(func(groupID, artifactID, version maven.String) (maven.DependencyManagement, error) {
+		var result maven.Project
+		root := maven.ProjectKey{GroupID: groupID, ArtifactID: artifactID, Version: version}
+		if err := mpr.MergeParents(ctx, root, 0, &result); err != nil {
+			return maven.DependencyManagement{}, err
+		}
+		return result.DependencyManagement, nil
+	})
+	return project, "", nil
+}
+
 // Row is one dependency in normal form: group, artifact, version, type,
 // classifier, scope, optional, exclusions.
 type Row struct {
